@@ -59,7 +59,7 @@ public:
 	~ff_unbounded_queue() {}
 
 	bool try_push(const T& source)
-		{ return _queue.push(new (::ff::ff_malloc(sizeof(T))) T(source)); }
+		{ return _queue.push(new T(source)); } // not from the pushing thread's FastFlow allocator: that is torn down when the thread exits
 	void push(const T& source) { try_push(source); }
 	bool try_pop(T* &target) { return _queue.pop(reinterpret_cast<void**>(&target)); }
 	bool pop(T* &target)
@@ -82,7 +82,7 @@ public:
 
 		return false;
 	}
-	void release(T *source) const { ::ff::ff_free(source); }
+	void release(T *source) const { delete source; }
 };
 
 //----------------------------------------------------------------------------------------
